@@ -114,6 +114,9 @@ func e1Specs(prop, tier string) []engines.E1Spec {
 			for _, rs := range []int{1, 3, 20} {
 				out = append(out, engines.E1Spec{Name: fmt.Sprintf("B/none/rs%d", rs), Cfg: rig.Config{RecordSize: rs}, Alphabet: engines.AlphabetB(false), Depth: 3, Oracles: or, Level: "archive"})
 			}
+			// stored size != plain size: batched members behind a compressed / encrypted payload
+			out = append(out, engines.E1Spec{Name: "B/gzip/rs3", Cfg: rig.Config{RecordSize: 3, Compression: "gzip"}, Alphabet: engines.AlphabetB(false), Depth: 2, Oracles: or, Level: "archive"})
+			out = append(out, engines.E1Spec{Name: "B/zstandard+age+minisign/rs20", Cfg: rig.Config{RecordSize: 20, Compression: "zstandard", Encryption: "age", Signature: "minisign"}, Alphabet: engines.AlphabetB(false), Depth: 2, Oracles: or, Level: "archive"})
 			return out
 		}
 		out := []engines.E1Spec{}
@@ -121,6 +124,9 @@ func e1Specs(prop, tier string) []engines.E1Spec {
 			out = append(out, engines.E1Spec{Name: fmt.Sprintf("B-full/none/rs%d", rs), Cfg: rig.Config{RecordSize: rs}, Alphabet: engines.AlphabetB(true), Depth: 3, Oracles: or, Level: "archive"})
 		}
 		out = append(out, engines.E1Spec{Name: "A-small/none/rs3", Cfg: rig.Config{RecordSize: 3}, Alphabet: engines.SmallA(), Depth: 3, Oracles: or})
+		for _, c := range []rig.Config{{RecordSize: 3, Compression: "gzip"}, {RecordSize: 1, Compression: "lz4", Encryption: "pgp"}, {RecordSize: 20, Compression: "zstandard", Encryption: "age", Signature: "minisign"}} {
+			out = append(out, engines.E1Spec{Name: "B-full/" + c.String(), Cfg: c, Alphabet: engines.AlphabetB(true), Depth: 2, Oracles: or, Level: "archive"})
+		}
 		return out
 	case "C07":
 		if tier == "quick" {
@@ -773,7 +779,7 @@ func runC08(rep *engines.Report, p *pool.Pool, tier string) int {
 	rep.Coverage["headers_accepted_and_checked"] = accepted
 	rep.Coverage["rebuilds_that_reported_an_error"] = dropped
 	rep.Coverage["exhaustive"] = skipped == 0
-	rep.Coverage["rule"] = "per pipeline: a tape written by the real write path (dir, files, content update, rename, header-shaped payload, delete) while recording every header the writer signed and the content signed under each; alterations: policy 'all' = every byte position x {b^0x01, b^0x80, 0x00}; 'quick' = every second non-zero byte and every fifth zero byte of header/PAX blocks and every 16th payload byte; 'forge' = the structured forgery list per record (edited embedded header with kept/removed/empty/non-base64/garbage/wrong-packet signature, re-encoded header, swapped signatures, second key, outer size, replaced payload, appended plain/half-wrapped records). Each altered tape is rebuilt with the real verify callbacks; every accepted header must equal a signed one, every restorable file must return the content signed under its header. distinct_nontrivial = distinct (pipeline, record kind, part of the record / forgery)."
+	rep.Coverage["rule"] = "per pipeline: a tape written by the real write path (dir, files, content update, rename, header-shaped payload, delete) while recording every header the writer signed and the content signed under each; alterations: policy 'all' = every byte position x {b^0x01, b^0x80, 0x00}; 'quick' = every second non-zero byte and every fifth zero byte of header/PAX blocks and every 16th payload byte; 'forge' = the structured forgery list per record (edited embedded header with kept/removed/empty/non-base64/garbage/wrong-packet signature, re-encoded header, swapped signatures, second key, outer size, replaced payload, appended plain/half-wrapped records). Each altered tape is rebuilt with the real verify callbacks; every accepted header must equal a signed one, every restorable file must return the content signed under its header or an error, both through recovery.Fetch at the indexed position and through the file API (Open, Read to EOF, Close). distinct_nontrivial = distinct (pipeline, record kind, part of the record / forgery)."
 	rep.Assumptions = []string{"single alteration per tape", "structured forgeries only on unencrypted tapes (encrypted ones are covered by byte alterations)", "tape = regular file"}
 	if skipped > 0 {
 		rep.Notes = append(rep.Notes, fmt.Sprintf("budget reached: %d of %d batches not executed", skipped, len(jobs)))
